@@ -375,6 +375,14 @@ func parseFuncDirective(fc *FuncContract, word, rest, file string, line int) {
 	switch word {
 	case "requires", "ensures", "assert", "cover", "canary":
 		fc.Clauses = append(fc.Clauses, mk(word, rest, -1))
+	case "atreturn":
+		// atreturn K [label] expr: postcondition of the K-th return statement (source order, 0-based)
+		f := strings.SplitN(rest, " ", 2)
+		n, err := strconv.Atoi(f[0])
+		if err != nil || len(f) < 2 {
+			fatalf("%s:%d: bad atreturn directive", file, line)
+		}
+		fc.Clauses = append(fc.Clauses, mk("atreturn", strings.TrimSpace(f[1]), n))
 	case "loop":
 		f := strings.SplitN(rest, " ", 3)
 		if len(f) < 3 {
